@@ -109,6 +109,10 @@ private:
 	// The object's raw attributes
 	std::map<CK_ATTRIBUTE_TYPE, OSAttribute*> attributes;
 
+	// The attributes as they were when the current transaction was started
+	std::map<CK_ATTRIBUTE_TYPE, OSAttribute*> savedAttributes;
+	bool inTransaction;
+
 	// The object's validity state
 	bool valid;
 
